@@ -411,20 +411,27 @@ macro_rules! make_resolve_const_function {
                     result
                 }
                 ConstExprEnum::Min(args) => {
-                    let mut result = <$const_ty>::MAX;
+                    // (`min()` without arguments is 0, as in const definitions)
+                    let mut result = if args.is_empty() { 0 } else { <$const_ty>::MAX };
                     for arg in args {
                         result = min(result, $fn_ident(arg, consts_unsigned));
                     }
                     result
                 }
+                // Array sizes are `usize` values, i.e. 32 bits wide in Garble: their arithmetic
+                // wraps around at 2^32, exactly as in the definition of a `usize` const.
                 ConstExprEnum::Add(lhs, rhs) => {
                     // TODO it is probably more sensible to return an error instead of wrapping.
                     // This would require changing this and calling functions to be fallible
                     // issue #227 (robinhundt 07.08.25)
-                    $fn_ident(lhs, consts_unsigned).wrapping_add($fn_ident(rhs, consts_unsigned))
+                    let sum = $fn_ident(lhs, consts_unsigned)
+                        .wrapping_add($fn_ident(rhs, consts_unsigned));
+                    sum & (u32::MAX as $const_ty)
                 }
                 ConstExprEnum::Sub(lhs, rhs) => {
-                    $fn_ident(lhs, consts_unsigned).wrapping_sub($fn_ident(rhs, consts_unsigned))
+                    let diff = $fn_ident(lhs, consts_unsigned)
+                        .wrapping_sub($fn_ident(rhs, consts_unsigned));
+                    diff & (u32::MAX as $const_ty)
                 }
                 ConstExprEnum::ConstExprIdent(ident) => *consts_unsigned
                     .get(ident)
